@@ -121,19 +121,20 @@ End Rewrite.
      fx_noraw     C14_no_raw_text_fast_paths           the request text itself is never executed
      fx_bsq       C14_reject_backslash_before_quote    a backslash before a quote in a literal is refused
      fx_single    C16_single_table_fast_path_keywords  the single-table fast path needs exactly one FROM keyword and no JOIN keyword
-     fx_cteq      C16_quoted_cte_declaration           a CTE declared with a quoted name is also known under its unquoted name *)
+     fx_cteq      C16_quoted_cte_declaration           a CTE declared with a quoted name is also known under its unquoted name
+     fx_quotes    C14_quote_scanning_backtick_estring  backticks are mapped only outside literals; any backslash-quote in E'..' refused *)
 Record fixset := { fx_with : bool; fx_dedup : bool; fx_scanner : bool; fx_denylist : bool; fx_noraw : bool; fx_bsq : bool;
-                   fx_single : bool; fx_cteq : bool }.
+                   fx_single : bool; fx_cteq : bool; fx_quotes : bool }.
 Definition fx_none : fixset :=
   {| fx_with := false; fx_dedup := false; fx_scanner := false; fx_denylist := false; fx_noraw := false; fx_bsq := false;
-     fx_single := false; fx_cteq := false |}.
+     fx_single := false; fx_cteq := false; fx_quotes := false |}.
 (* the code with every repair: the current source *)
 Definition fx_all : fixset :=
   {| fx_with := true; fx_dedup := true; fx_scanner := true; fx_denylist := true; fx_noraw := true; fx_bsq := true;
-     fx_single := true; fx_cteq := true |}.
+     fx_single := true; fx_cteq := true; fx_quotes := true |}.
 Definition fx_of_bits (n : N) : fixset :=
   {| fx_with := N.testbit n 0; fx_dedup := N.testbit n 1; fx_scanner := N.testbit n 2; fx_denylist := N.testbit n 3;
-     fx_noraw := N.testbit n 4; fx_bsq := N.testbit n 5; fx_single := N.testbit n 6; fx_cteq := N.testbit n 7 |}.
+     fx_noraw := N.testbit n 4; fx_bsq := N.testbit n 5; fx_single := N.testbit n 6; fx_cteq := N.testbit n 7; fx_quotes := N.testbit n 8 |}.
 
 (* ------------------------------------------------------------------------------------ *)
 (* 2. the four table patterns and the CTE pattern                                         *)
@@ -592,9 +593,27 @@ Definition prerewrite_inert (s : bytes) : bool :=
 (* 6. ValidateSQLRequest                                                                  *)
 (* ------------------------------------------------------------------------------------ *)
 
+(* backticksToDoubleQuotes: every backtick / (fx_quotes) only the backticks outside '...' and "..." literals *)
+Fixpoint bt2dq_outside (inq : N) (skip : bool) (l : bytes) : bytes :=
+  match l with
+  | [] => []
+  | c :: r =>
+      if skip then c :: bt2dq_outside inq false r                    (* second quote of a doubled pair *)
+      else if inq =? 0 then
+        if (c =? 39) || (c =? 34) then c :: bt2dq_outside c false r
+        else if c =? 96 then 34 :: bt2dq_outside 0 false r
+        else c :: bt2dq_outside 0 false r
+      else if c =? inq then
+        match r with
+        | d :: _ => if d =? inq then c :: bt2dq_outside inq true r else c :: bt2dq_outside 0 false r
+        | [] => [c]
+        end
+      else c :: bt2dq_outside inq false r
+  end.
+Definition bt2dq (q : bool) (s : bytes) : bytes := if q then bt2dq_outside 0 false s else backticks_to_dq s.
 (* the shared normalisation of ValidateSQLRequest: backticks to double quotes, mask, strip comments *)
-Definition norm_v (s : bytes) : bytes * list smask :=
-  let s1 := backticks_to_dq s in
+Definition norm_v (q : bool) (s : bytes) : bytes * list smask :=
+  let s1 := bt2dq q s in
   let f := scan_features s1 in
   let '(m, masks) := mask_go s1 (f_quotes f) in
   (strip_comments_gen true m (f_dash f || f_block f), masks).
@@ -780,12 +799,12 @@ Definition resolve_ph_text (names : names_t) (v : bytes) : bytes :=
                        | TW w => TW (flat_map (fun p => match name_lookup p names with Some n => n | None => p end) (split_word [] O w))
                        | t => t end) (tokenize v)).
 (* fx_bsq: backslashBeforeQuote on a mask's original text *)
-Definition bsq_mask (m : smask) : bool :=
+Definition bsq_mask (q : bool) (m : smask) : bool :=
   let o := m_orig m in
   match o with
   | c :: _ => if c =? 39 then has_sub [92; 39] o
               else if c =? 34 then has_sub [92; 34] o
-              else if (c =? 101) || (c =? 69) then has_sub [92; 92; 39] o
+              else if (c =? 101) || (c =? 69) then has_sub (if q then [92; 39] else [92; 92; 39]) o
               else false
   | [] => false
   end.
@@ -798,8 +817,8 @@ Definition validate (fx : fixset) (s : bytes) : option reject :=
   if match trim_space s with [] => true | _ => false end then Some RjEmpty
   else if 10000 <? N.of_nat (length s) then Some RjLong
   else
-    let '(v, vmasks) := norm_v s in
-    if fx_bsq fx && existsb bsq_mask vmasks then Some RjBackslash
+    let '(v, vmasks) := norm_v (fx_quotes fx) s in
+    if fx_bsq fx && existsb (bsq_mask (fx_quotes fx)) vmasks then Some RjBackslash
     else if multi_statement v then Some RjMulti
     else if dangerous (tokenize v) then Some RjDanger
     else
@@ -911,7 +930,7 @@ Definition gate_gen (fx : fixset) (s hdr : bytes) : outcome :=
       if negb (match hdr with [] => true | _ => valid_identifier hdr end) then OReject RjHeader
       else if negb (match hdr with [] => true | _ => false end) && has_cross_db s then OReject RjCross
       else
-        let sh := normalise_show_gen true s in
+        let sh := trim_space (normalise_gen true (bt2dq (fx_quotes fx) s)) in
         if show_databases sh then OShowDatabases
         else match show_tables sh with
              | Some cap =>
@@ -1201,7 +1220,7 @@ Record read_case := { r_gate : gate_case; r_reads : list ref; r_existing : list 
 Definition ref_mem (r : ref) (l : list ref) : bool := existsb (ref_eqb r) l.
 Definition refs_subset (a b : list ref) : bool := forallb (fun r => ref_mem r b) a.
 (* with the repairs of the validator and without raw routes the guard "no literal names a file" is not needed *)
-Definition guards_repaired (fx : fixset) : bool := fx_scanner fx && fx_denylist fx && fx_noraw fx && fx_bsq fx.
+Definition guards_repaired (fx : fixset) : bool := fx_scanner fx && fx_denylist fx && fx_noraw fx && fx_bsq fx && fx_quotes fx.
 Definition read_case_in_domain (c : read_case) : bool :=
   let g := r_gate c in
   case_in_grammar g && (guards_repaired (case_fx g) || case_pathlike_free g) && case_header_ctes_ok g && case_slow_path g
